@@ -338,3 +338,13 @@ def _c14_extra(pid, tier, seed):
 
 
 PROPS["C14"]["extra"] = _c14_extra
+
+
+# ---- round 7: the EQUALITY implementations of ppv-lite86 (tools/inventory_simdeq.py -> lean/CC/Gen/SimdEqSrc.lean; lean/CC/Simd/SrcEq.lean)
+for _pid, _ths in (("C13", ["eq_is_equality", "eq128_s4_is_equality", "source_eq_match"]),
+                   ("C15", ["state_eq_is_equality", "rows_eq_is_equality", "source_eq_match"])):
+    PROPS[_pid]["theorems"] = list(PROPS[_pid]["theorems"]) + [t for t in _ths if t not in PROPS[_pid]["theorems"]]
+    _te = ("tools/inventory_simdeq.py (translator of the PartialEq impls of ppv-lite86 and the derive lists of generic.rs / guts.rs): its reading "
+           "table is printed in lean/CC/Gen/SimdEqSrc.lean; ASSUMED: `#[derive(PartialEq)]` = field-wise `&&` in declaration order")
+    if _te not in PROPS[_pid].get("trusted_extra", []):
+        PROPS[_pid]["trusted_extra"] = list(PROPS[_pid].get("trusted_extra", [])) + [_te]
